@@ -44,6 +44,10 @@ structure SNode where
   busy : Bool := false
   /-- monitor: every event ever handed to it (ghost) -/
   monAll : List (Ev Obj) := []
+  /-- plain subscription (ghost): the batch during which the buffer ran full, and how many events were queued
+      before it — which events of that batch were kept depends on the order inside the batch -/
+  bAt : Nat := 0
+  bBatch : List (Ev Obj) := []
 
 structure Sys where
   nodes : List SNode := []
@@ -110,7 +114,10 @@ def publish : Nat → Sys → Nat → List (Ev Obj) → Sys
       | none => s
       | some n =>
         if c == 0 || n.parent != p || n.closed then s else
-        if n.kind == "sub" then s.setNode c { n with q := offerAll evCap n.q evs }
+        if n.kind == "sub" then
+          (if n.q.length < evCap && evCap < n.q.length + evs.length then
+             s.setNode c { n with q := offerAll evCap n.q evs, bAt := n.q.length, bBatch := evs }
+           else s.setNode c { n with q := offerAll evCap n.q evs })
         else if n.kind == "mon" then
           (if n.monInit.isNone then s
            else if !n.stalled then s.setNode c { n with monLog := n.monLog ++ evs, monAll := n.monAll ++ evs }
@@ -292,11 +299,17 @@ def Sys.pendingOf (s : Sys) (i : Nat) : List (Ev Obj) :=
     | some fs => fs.out
     | none => []
 
+/-- (length of the queue before, events of) the batch during which plain subscription `i` ran full -/
+def Sys.boundaryOf (s : Sys) (i : Nat) : Nat × List (Ev Obj) :=
+  match s.node i with
+  | none => (0, [])
+  | some n => (n.bAt, n.bBatch)
+
 def Sys.drain (s : Sys) (i : Nat) : Sys :=
   match s.node i with
   | none => s
   | some n =>
-    if n.kind == "sub" then s.setNode i { n with q := [] }
+    if n.kind == "sub" then s.setNode i { n with q := [], bAt := 0, bBatch := [] }
     else match n.fs with
       | some fs => s.setNode i { n with fs := some { fs with out := [] } }
       | none => s
